@@ -238,13 +238,15 @@ fn oracle_inner(case: &Case, obs: &[OpObs], found: &mut Vec<(Value, String)>, co
     let mut required_payload = 0u64;
     for (i, o) in obs.iter().enumerate() {
         if o.res == "panic" {
-            // a panic is a violation only inside the theorem scope (fault cases with absurd
-            // alignment / overflowing leader are C07's)
-            if let Some(b) = &o.before {
-                if o.kind != 'e' || in_scope(case, b) {
-                    viol("no_panic", json!({"op": o.kind.to_string()}), format!("op #{i} '{}' panicked inside the property's scope", o.kind));
+            // the property demands an error, never a panic, whatever the device reports
+            let class = match (&o.before, o.kind) {
+                (Some(b), 'e') => {
+                    let e = le32(&b[0..]) >> 24;
+                    if in_scope(case, b) { "in-scope" } else if e >= 32 { "alignment-exponent>=32" } else { "aligned-size-overflows-u32" }
                 }
-            }
+                _ => "other",
+            };
+            viol("no_panic", json!({"op": o.kind.to_string(), "class": class}), format!("op #{i} '{}' panicked ({class})", o.kind));
             continue;
         }
         let any_failed = o.log.iter().any(|a| matches!(a, Acc::R { ok: false, .. } | Acc::W { ok: false, .. }));
@@ -306,9 +308,12 @@ fn oracle_inner(case: &Case, obs: &[OpObs], found: &mut Vec<(Value, String)>, co
             }
             continue;
         }
-        // successful call
-        if !in_scope(case, before) {
-            counts.push("enable-ok:out-of-scope(no coverage oracle)");
+        // successful call: the coverage demands apply to every input for which the call succeeds
+        let scoped = in_scope(case, before);
+        if !scoped {
+            counts.push("enable-ok:outside-theorem-scope");
+        }
+        if le32(&before[0..]) >> 24 >= 64 {
             continue;
         }
         let e = le32(&before[0..]) >> 24;
@@ -330,7 +335,7 @@ fn oracle_inner(case: &Case, obs: &[OpObs], found: &mut Vec<(Value, String)>, co
                 format!("maximum trailer size {mt} < required {req_trailer} (required leader {req_leader})"));
         }
         if (ts as u128) * (cnt as u128) + (f1 as u128) + (f2 as u128) < (req_payload as u128) {
-            viol("payload_covered", json!({}), format!("{ts} x {cnt} + {f1} + {f2} < required payload {req_payload}"));
+            viol("payload_covered", json!({"in_theorem_scope": scoped}), format!("{ts} x {cnt} + {f1} + {f2} < required payload {req_payload}"));
         }
         for (name, v) in [("transfer_size", ts), ("final1", f1), ("final2", f2), ("max_leader", ml), ("max_trailer", mt)] {
             if v % a != 0 {
@@ -514,6 +519,19 @@ fn main() {
         run_case(&mut rep, &case, "replay");
         rep.write(&args);
         return;
+    }
+
+    // 0. minimised past failures first
+    if let Ok(dir) = std::fs::read_dir("/verif/corpus/C15") {
+        let mut files: Vec<_> = dir.filter_map(|e| e.ok()).map(|e| e.path()).filter(|p| p.extension().map_or(false, |x| x == "json")).collect();
+        files.sort();
+        for f in files {
+            if let Ok(v) = serde_json::from_str::<Value>(&std::fs::read_to_string(&f).unwrap_or_default()) {
+                if v["replay"].is_object() {
+                    run_case(&mut rep, &Case::from_json(&v["replay"]), "corpus");
+                }
+            }
+        }
     }
 
     // 1. systematic grid: exponents 0..=16 x boundary sizes x enabled/disabled, plain `e p`
